@@ -145,28 +145,68 @@ def r3(ctx):
 
 
 def r4(ctx):
+    """Range::update touches its values only through comparisons: decide it on the finite set of orderings of
+    (new_value, low, high) with low <= high, x activated in {false, true}."""
+    import itertools
     b = ctx.fbody(name="update", self_adt=RNG, trait="")
-    tab = {}
-    for bi, si, path, value, s in b.stores():
-        g = b.guard(bi)
-        key = []
-        for conj in g:
-            ks = []
-            for a in sorted(conj, key=repr):
-                c = atoms.atom_cmp(a)
-                if c:
-                    ks.append("%s(%s,%s)" % (c[0], render(c[1]), render(c[2])))
-                elif a[0] == "bool":
-                    ks.append(("" if a[2] else "!") + render(a[1]))
-                else:
-                    ks.append(mir.render_atom(a))
-            key.append("&".join(sorted(ks)))
-        tab.setdefault(render(path), set()).add(("|".join(sorted(key)), render(value)))
-    want = {"self.high": {("lt(self.high,new_value)&self.activated", "new_value"), ("!self.activated", "new_value")},
-            "self.low": {("lt(new_value,self.low)&self.activated", "new_value"), ("!self.activated", "new_value")},
-            "self.activated": {("!self.activated", "1")}}
-    ctx.check("Range::update", tab == want, "the first value seeds both bounds; afterwards a value only raises the high / lowers the low",
-              got={k: sorted(v) for k, v in tab.items()}, want={k: sorted(v) for k, v in want.items()}, key="table")
+    stores = [(bi, si, render(path), render(value), b.guard(bi)) for bi, si, path, value, s in b.stores()]
+    syms = ("new_value", "self.low", "self.high")
+    problems = []
+    # a guard that reads a field after an earlier store to that field cannot be evaluated on the pre-state: fail closed
+    for bi, si, path, value, g in stores:
+        for x in sorted(b.reach_from(bi) | {bi}):
+            if b.blocks[x]["term"]["t"] == "switch":
+                for lab, y in b.succ[x]:
+                    a = b.edge_atom(x, lab)
+                    if a and path in render(a[1]):
+                        problems.append("the decision at bb%d reads %s after it was stored at bb%d" % (x, path, bi))
+                    break
+
+    def holds(atom, rank, act):
+        c = atoms.atom_cmp(atom)
+        if c:
+            op, x, y = c[0], render(c[1]), render(c[2])
+            if x not in rank or y not in rank:
+                raise KeyError(mir.render_atom(atom))
+            return {"lt": rank[x] < rank[y], "le": rank[x] <= rank[y], "eq": rank[x] == rank[y], "ne": rank[x] != rank[y]}[op]
+        if atom[0] == "bool" and render(atom[1]) == "self.activated":
+            return act == bool(atom[2])
+        raise KeyError(mir.render_atom(atom))
+
+    n = 0
+    try:
+        for ranks in itertools.product(range(3), repeat=3):
+            rank = dict(zip(syms, ranks))
+            for act in (False, True):
+                if act and rank["self.low"] > rank["self.high"]:
+                    continue
+                n += 1
+                out = {}
+                for bi, si, path, value, g in stores:
+                    if any(all(holds(a, rank, act) for a in conj) for conj in g):
+                        out.setdefault(path, set()).add(value)
+                res = {}
+                for f in ("self.high", "self.low"):
+                    vs = out.get(f, {f})
+                    if not vs <= set(syms):
+                        problems.append("%s <- %s" % (f, sorted(vs)))
+                        continue
+                    rs = {rank[v] for v in vs}
+                    res[f] = rs
+                want_hi = max(rank["new_value"], rank["self.high"]) if act else rank["new_value"]
+                want_lo = min(rank["new_value"], rank["self.low"]) if act else rank["new_value"]
+                if res.get("self.high") != {want_hi} or res.get("self.low") != {want_lo}:
+                    problems.append("activated=%s order=%s: high<-%s low<-%s" % (act, rank, sorted(out.get("self.high", [])), sorted(out.get("self.low", []))))
+                if not act and out.get("self.activated") != {"1"}:
+                    problems.append("first value does not activate the range")
+                if act and out.get("self.activated", {"1"}) != {"1"}:
+                    problems.append("an active range is deactivated")
+    except KeyError as e:
+        problems.append("unevaluable guard atom %s" % e)
+    ctx.check("Range::update", not problems and len(stores) >= 3,
+              "on every ordering of (value, low, high): the first value seeds both bounds; afterwards high' = max(high, value), "
+              "low' = min(low, value)", got=problems[:4], key="table")
+    ctx.extra["C17.R4 orderings evaluated"] = n
     rb = ctx.fbody(name="range", self_adt=RNG, trait="")
     try:
         ok = formula.equal(formula.to_sympy(ctx.facts, rb.return_term()), sympy.Symbol("self.high") - sympy.Symbol("self.low"))
